@@ -41,8 +41,8 @@ class Expr:
         src = ast.unparse(n)
         if src == f"{self.v}.op.name":
             return "(d_name d)", "s"
-        if src in (f"getattr({self.v}.op, 'label', None)",):
-            return "(d_label d)", "os"
+        if src in (f"getattr({self.v}.op, 'label', None)", f"getattr({self.v}.op, 'label', '')"):
+            return "(d_label d)", "os"  # every Qiskit Instruction has a label attribute (None when not given): the default is never used
         if src == f"len({self.v}.qargs)":
             return "(d_nq d)", "n"
         if src == f"{self.v}.qargs[0]._index":
@@ -100,10 +100,10 @@ class Expr:
                     return f"(str_of {a})", "s"
                 if t == "s":
                     return a, "s"
-            if isinstance(n.func, ast.Attribute) and n.func.attr == "upper" and not n.args:
+            if isinstance(n.func, ast.Attribute) and n.func.attr in ("upper", "strip") and not n.args:
                 a, t = self.e(n.func.value)
                 if t == "s":
-                    return f"(upper {a})", "s"
+                    return f"({'upper' if n.func.attr == 'upper' else 'str_strip'} {a})", "s"
         raise Unsupported(f"expression {src}")
 
 
@@ -209,6 +209,25 @@ def regenerate() -> str:
            f"Definition classify_src (d : descr) : cls :=\n  {tree}.", ""]
     for lst, nm in (("single_qubit_nodes", "single"), ("even_nodes", "even"), ("odd_nodes", "odd")):
         out.append(f"(* {lst}.sort(key=lambda node: {keys[lst][1]}) *)\nDefinition {nm}_key_src (d : descr) : nat := {keys[lst][0]}.")
+    # ---- the front-end's count of sampling barriers (simulator._run_strong_sim), which sizes the result arrays ----
+    ts = ast.parse((REPO / "simulator.py").read_text())
+    fs = func(ts, "_run_strong_sim")
+    asg = [st for st in ast.walk(fs) if isinstance(st, ast.Assign) and ast.unparse(st.targets[0]) == "sim_params.num_mid_measurements"]
+    if len(asg) != 1:
+        raise Unsupported("_run_strong_sim: expected exactly one assignment to sim_params.num_mid_measurements")
+    val = asg[0].value
+    ok = (isinstance(val, ast.Call) and ast.unparse(val.func) == "sum" and len(val.args) == 1 and isinstance(val.args[0], ast.GeneratorExp)
+          and isinstance(val.args[0].elt, ast.Constant) and val.args[0].elt.value == 1 and len(val.args[0].generators) == 1)
+    if not ok:
+        raise Unsupported("_run_strong_sim: expected num_mid_measurements = sum(1 for n in dag.op_nodes() if <test>)")
+    g = val.args[0].generators[0]
+    if ast.unparse(g.iter) != "dag.op_nodes()" or not isinstance(g.target, ast.Name) or len(g.ifs) != 1 or g.is_async:
+        raise Unsupported("_run_strong_sim: expected one loop over dag.op_nodes() with one test")
+    c, ty = Expr(g.target.id, {}).e(g.ifs[0])
+    if ty != "b":
+        raise Unsupported("_run_strong_sim: the counting test is not boolean")
+    out.append(f"(* simulator.py _run_strong_sim: num_mid_measurements = sum(1 for n in dag.op_nodes() if {ast.unparse(g.ifs[0])}) *)\n"
+               f"Definition counted_src (d : descr) : bool :=\n  {c}.")
     new = "\n".join(out) + "\n"
     if not OUT.exists() or OUT.read_text() != new:
         OUT.write_text(new)
